@@ -198,8 +198,9 @@ OCommit(o, id, by) ==
 
 (* scalar samples of the pool's own in-use counter (C05) *)
 OSample(o, inuse) ==
-  LET v == IF inuse > o.cfg.cap THEN {V("inuse_over_capacity", 0, inuse, "pool", "")}
-           ELSE IF inuse < 0 THEN {V("inuse_negative", 0, inuse, "pool", "")} ELSE {}
+  \* a sample ABOVE the capacity is not judged: the std pool publishes a returned slot before it decrements its counter, so a
+  \* getter's increment can come first (the counter is a metric; the property speaks about events held, which OOwn counts)
+  LET v == IF inuse < 0 THEN {V("inuse_negative", 0, inuse, "pool", "")} ELSE {}
   IN IF v = {} THEN o ELSE [o EXCEPT !.viol = @ \cup v]
 
 (* the pipeline is idle: C02 accounting, C05 zero at quiescence, C09 routing at exhaustion *)
